@@ -84,6 +84,20 @@ def rows_of_slot(lines, upto, slot):
     return None
 
 
+def readings_of_slot(lines, upto, slot):
+    """every reported reading of `slot` before line `upto`, back to its last mutation"""
+    out = []
+    for l in reversed(lines[:upto]):
+        t = l.split()
+        if t[0] in ("arg", "res", "obs") and t[1] == slot and len(t) > 4:
+            try: out.append(parse_cs_rows(t[4:], int(t[2]))[0])
+            except Exception: pass
+            if t[0] == "res" and t[3] == "cons": break
+        elif t[0] in ("new", "reset") and t[1] == slot: break
+        elif t[0] == "copy" and t[1] == slot: slot = t[2]
+    return out
+
+
 def dim_of_slot(lines, upto, slot):
     for l in reversed(lines[:upto]):
         t = l.split()
@@ -164,14 +178,14 @@ def classify(lines, idx, verdict):
             tags += arg_number_tags(op[4:], tname, tags)
             tags += overflow_tags([], op[4:], tname, cls)
             if any(l.startswith("res " + op[1] + " ") for l in lines[opi:idx]): tags.append("crash_after_result_reported")
+        else:
+            site = cls + "::?"
         if "crash_after_result_reported" in tags:
             # the result had been printed through constraints(): the crash is in OK(), minimized_constraints() of a copy,
             # the conversion to a polyhedron or ascii_dump() of the result
             site = cls + "::minimized_constraints"
             rr = rows_of_slot(lines, idx, op[1])
             if rr is not None: tags += [x for x in overflow_tags([rr], [], tname, cls) if x not in tags]
-        else:
-            site = cls + "::?"
     elif t[0] == "q":
         site = "%s::%s" % (cls, METHOD.get(t[2], t[2]))
         slots = [t[1]] + ([t[3]] if t[2] in ("contains", "strictly_contains", "disjoint", "equals") else [])
@@ -186,7 +200,9 @@ def classify(lines, idx, verdict):
         if recv_rows is not None and len(recv_rows) == 0: tags.append("universe_receiver")
         if recv_rows is not None:
             tags += limit_tags(recv_rows, tname)
-            tags += overflow_tags([recv_rows], t[3:], tname, cls)
+            allr = []
+            for sl in slots: allr += readings_of_slot(lines, idx, sl)
+            tags += overflow_tags(allr, t[3:], tname, cls)
         if t[2] in ("max", "min", "maxp", "minp", "bounds_above", "bounds_below"):
             try:
                 (k0, a0), _ = parse_expr(t[3:], n)
@@ -275,7 +291,8 @@ def classify(lines, idx, verdict):
             tags += arg_number_tags(op[3:], tname, tags)
             r2x = rows_of_slot(lines, opi, op[3]) if len(op) == 4 else None
             tags += overflow_tags([rr, r2x], op[3:], tname, cls)
-            if "T_native_int" in tags and "native_int_negative_coefficient" in tags: tags.append(cls + "_native_int_negative_coefficient")
+            if "T_native_int" in tags and ("native_int_negative_coefficient" in tags or "inverse_relation_divides_by_minus_coefficient" in tags):
+                tags.append(cls + "_native_int_negative_coefficient")
         if t[0] == "res":
             try:
                 resrows = parse_cs_rows(t[4:], int(t[2]))[0]
@@ -295,6 +312,12 @@ def classify(lines, idx, verdict):
                 last = u[0] + ":" + (u[2] if u[0] == "op" else ""); break
         site = "%s::history(%s)" % (cls, METHOD.get(last, last))
         if t[1] in tainted: tags.append("operand_not_OK_after_" + tainted[t[1]])
+        try:
+            now = parse_cs_rows(t[4:], int(t[2]))[0]
+            before = rows_of_slot(lines, idx, t[1])
+            tags += overflow_tags([now, before], [], tname, cls)
+        except Exception:
+            pass
     if "bound_near_limit_of_T" in tags:
         tags.append("%s_%s_bound_near_limit" % (cls, type_class(tshort)))
     return site, tags
@@ -390,7 +413,9 @@ def op_tags(name, args, n, kind):
             if not nz: tags.append("constant_expr")
             elif len(nz) == 1: tags += ["one_var_expr", "expr_var_is_var" if nz[0] == v else "expr_var_is_other"]
             else: tags.append("general_expr")
-            if v in nz: tags.append("expr_mentions_var")
+            if v in nz:
+                tags.append("expr_mentions_var")
+                if name == "gen_pre": tags.append("inverse_relation_divides_by_minus_coefficient")
             else:
                 tags.append("expr_omits_var")
                 if rel != "=": tags.append("expr_omits_var_rel_not_eq")
@@ -460,8 +485,11 @@ def run_driver_parallel(ctx, drv, journal, wd, tag, mode, nproc=14):
 
 
 def run_shapes(ctx, mode, types, n_hist, length, maxdim, batch=10, nproc=14):
+    import time
+    t0 = time.time()
     drv = ctx.ensure_pplv("pplv_wr")
     wd = ctx.workdir()
+    t1 = time.time()
     tus = sorted(set(TU[t] for t in types))
     with cf.ThreadPoolExecutor(min(len(tus), 8)) as ex:
         bins = dict(zip(tus, ex.map(lambda k: ctx.compile_harness("c04_shapes.cc", out_name="c04_shapes_tu%d" % k,
@@ -476,8 +504,10 @@ def run_shapes(ctx, mode, types, n_hist, length, maxdim, batch=10, nproc=14):
             ctx.fatal("harness failed rc=%s %s" % (rc, (err or "")[-500:]))
         return t, cmd, open(jpath).read().splitlines()
 
+    t2 = time.time()
     with cf.ThreadPoolExecutor(8) as ex:
         journals = list(ex.map(gen, types))
+    t3 = time.time()
 
     stats = collections.Counter()
     opc, qc, statusc, precise = collections.Counter(), collections.Counter(), collections.Counter(), collections.Counter()
@@ -524,12 +554,15 @@ def run_shapes(ctx, mode, types, n_hist, length, maxdim, batch=10, nproc=14):
                         site, tags = classify(lines, i, v[1])
                         ctx.violation("%s [%s]: %s | event: %s" % (site, t, v[1], l[:300]),
                                       {"history": lines[: i + 1], "verdict": v[1], "site": site, "tags": tags, "type": t,
+                                       "harness": {"seed": ctx.seed, "hist": int(lines[0].split()[1]), "len": length, "maxdim": maxdim},
                                        "replay_cmd": " ".join(cmd[:1] + cmd[1:7] + ["--first", lines[0].split()[1], "--last",
                                                                                    str(int(lines[0].split()[1]) + 1)] + cmd[11:]),
-                                       "judge": "pplv_wr --mode " + mode},
+                                       "judge": "pplv_wr --mode " + mode, "driver": "pplv_wr", "driver_args": ["--mode", mode]},
                                       found_input=True, record={"site": site, "tags": tags})
         per_type[t] = dict(tstat)
     ctx.cov.update({
+        "phase_seconds": {"driver_build": round(t1 - t0, 1), "harness_compile": round(t2 - t1, 1), "harness_run": round(t3 - t2, 1),
+                          "judge": round(time.time() - t3, 1)},
         "evaluations": n_hists, "distinct_nontrivial": nontrivial,
         "rule": "seeded histories over a pool of 4 shapes per instantiation (dim<=%d, %d mutators each, types %s); distinct by hash of the journal text; "
                 "non-trivial = at least one mutator, a reported result that is neither universe nor empty and >=2 distinct lazy-status lines" % (maxdim, length, ",".join(types)),
@@ -544,3 +577,35 @@ def run_shapes(ctx, mode, types, n_hist, length, maxdim, batch=10, nproc=14):
         "driver_summary": dict(totals),
     })
     return stats
+
+
+def run_replay(ctx, mode):
+    """bin/check CNN --replay <file>: re-execute the recorded history on the current tree and judge it again."""
+    import json
+    obj = json.load(open(ctx.replay))
+    t, hz = obj["type"], obj["harness"]
+    drv = ctx.ensure_pplv("pplv_wr")
+    wd = ctx.workdir()
+    k = TU[t]
+    h = ctx.compile_harness("c04_shapes.cc", out_name="c04_shapes_tu%d" % k, flags=("-DPPLV_TU=%d" % k,), opt="-O0")
+    jpath = os.path.join(wd, "replay.journal.txt")
+    cmd = [h, "--type", t, "--seed", str(hz["seed"]), "--first", str(hz["hist"]), "--last", str(hz["hist"] + 1),
+           "--len", str(hz["len"]), "--maxdim", str(hz["maxdim"]), "--batch", "1"]
+    rc, _, err = ctx.run(cmd, stdout_path=jpath, timeout=600)
+    journal = open(jpath).read().splitlines()
+    verd, _ = run_driver_parallel(ctx, drv, journal, wd, "replay", mode, 1)
+    n = 0
+    for start, lines in split_histories(journal):
+        for i, l in enumerate(lines):
+            for v in verd.get(start + i, []):
+                if v[0] == "MISMATCH":
+                    site, tags = classify(lines, i, v[1])
+                    if site != obj.get("site"):
+                        continue
+                    n += 1
+                    ctx.violation("%s [%s]: %s | event: %s" % (site, t, v[1], l[:300]),
+                                  {"history": lines[: i + 1], "verdict": v[1], "site": site, "tags": tags, "type": t, "harness": hz},
+                                  found_input=True, record={"site": site, "tags": tags})
+    print("replay: %d mismatching event(s) at %s reproduced on the current tree" % (n, obj.get("site")), flush=True)
+    ctx.cov.update({"evaluations": 1, "distinct_nontrivial": 1, "rule": "replay of one recorded history", "samples": [journal[:10]],
+                    "traces_validated_against_impl": 1})
